@@ -43,7 +43,10 @@ def r17abc(ctx):
     # the scan: a loop calling is_spanned whose positive outcome leads to `return False`
     scans = [n for n in walk_no_nested(f.node) if isinstance(n, ast.Call) and call_name(n) in ("is_spanned", "_is_spanned")]
     if not scans:
-        raise AnalysisError("R17a: is_spanned scan not found in set_span")
+        ctx.instance("R17a", f"{f.file}:{f.ident}", "the area is scanned for an existing span", ok=False)
+        ctx.report("R17a", f, f.node, "set_span does not call is_spanned()", "set_span no longer checks the requested area for an existing span before writing: "
+                   "overlapping spans can be created")
+        return
     refuse = [n for n in walk_no_nested(f.node) if isinstance(n, ast.Return) and isinstance(n.value, ast.Constant) and n.value.value is False
               and structural_guards(n, stop=f.node) and any("good" in ast.unparse(t) for t, _ in structural_guards(n, stop=f.node))]
     flag_sets = [n for n in walk_no_nested(f.node) if isinstance(n, ast.Assign) and isinstance(n.targets[0], ast.Name) and n.targets[0].id == "good"
